@@ -156,6 +156,12 @@ Theorem C30_stale_cache_refuted :
 Proof. vm_compute. split; reflexivity. Qed.
 Print Assumptions C30_stale_cache_refuted.
 
+(* the component length is a 16-bit UNSIGNED big-endian number: 40000 bytes -> 0x9C 0x40, 65535 is the largest component *)
+Example C30_unsigned_length :
+  u16_be 32767 = [127; 255] /\ u16_be 32768 = [128; 0] /\ u16_be 40000 = [156; 64] /\ u16_be 65535 = [255; 255] /\
+  (forall b, component_ok b = true <-> Z.of_nat (length b) < 65536).
+Proof. repeat split; try reflexivity; unfold component_ok; apply Z.ltb_lt. Qed.
+
 (* non-vacuity: a 3-column statement (int, text, blob), composite partition key (blob, int) from table metadata,
    bound by name on v4 with the text column missing *)
 Example C30_nonvacuous :
